@@ -138,6 +138,25 @@ func (t *c06tracer) Match(ctx context.Context, qCtx *query_context.Context) (boo
 	panic("bad matcher kind")
 }
 
+// c06qmatch is a tagged matcher configured per rule through QuickConfigureMatch.
+type c06qmatch struct{ *c06tracer }
+
+func (t c06qmatch) QuickConfigureMatch(args string) (sequence.Matcher, error) {
+	arg := strings.TrimSpace(args)
+	return sequence.MatchFunc(func(ctx context.Context, qCtx *query_context.Context) (bool, error) {
+		simrt.Yield(0)
+		run := runOf(t.runs, qCtx)
+		run.Trace = append(run.Trace, t.p.Tag+"("+arg+")")
+		switch arg {
+		case "t":
+			return true, nil
+		case "f":
+			return false, nil
+		}
+		return false, errors.New("err:" + t.p.Tag)
+	}), nil
+}
+
 // Exec (plain) and the wrapping variant are exposed through two wrapper types so
 // that the sequence sees either an Executable or a RecursiveExecutable.
 type c06plain struct{ *c06tracer }
@@ -258,7 +277,10 @@ func c06Gen(r *simrt.Rand) *c06prog {
 			nm := r.Weighted(4, 3, 2, 1)
 			for mi := 0; mi < nm; mi++ {
 				var m string
-				switch r.Weighted(4, 3, 1, 2, 1, 1) {
+				switch r.Weighted(4, 3, 1, 2, 1, 1, 2) {
+				case 6:
+					// a tagged matcher that takes per-rule arguments (QuickConfigureMatch)
+					m = "$" + newPlugin("mq", 0) + " " + []string{"t", "f", "e"}[r.Choose(3)]
 				case 0:
 					m = "$" + newPlugin("mt", 0)
 				case 1:
@@ -380,8 +402,20 @@ func (ri *c06ref) evalMatch(m string, q *c06q) (bool, error) {
 	run := ri.runs.get(q.run)
 	var res bool
 	if strings.HasPrefix(m, "$") {
-		pl := ri.p.Plugins[m[1:]]
+		tag, arg, _ := strings.Cut(m[1:], " ")
+		pl := ri.p.Plugins[tag]
 		switch pl.Kind {
+		case "mq":
+			arg = strings.TrimSpace(arg)
+			run.Trace = append(run.Trace, pl.Tag+"("+arg+")")
+			switch arg {
+			case "t":
+				res = true
+			case "f":
+				res = false
+			default:
+				return false, errors.New("err:" + pl.Tag)
+			}
 		case "mt":
 			run.Trace = append(run.Trace, pl.Tag+"=T")
 			res = true
@@ -583,7 +617,11 @@ func c06Main(rc *RunCtx) {
 		tr := &c06tracer{p: pl, rc: rc, runs: realRuns}
 		switch pl.Kind[0] {
 		case 'm', 'h':
-			reg[tag] = tr
+			if pl.Kind == "mq" {
+				reg[tag] = c06qmatch{tr}
+			} else {
+				reg[tag] = tr
+			}
 		case 'w':
 			reg[tag] = c06wrap{tr}
 		default:
